@@ -10,7 +10,8 @@ HEADER = ('From Coq Require Import List NArith.\n'
           'From PC Require Import Base.Outcome Model.Container Check.C16.\n'
           'Import ListNotations.\nOpen Scope N_scope.\n')
 
-DOC_BASE, AUX_BASE, DECOY_BASE, USER_BASE, ZIP_BASE = 1000, 2000, 3000, 5000, 4000
+from harness.impl.c16_blobs import (kind_id, content_id, user_content, AUX_FORMS, USER_FORMS,  # noqa (pure data module)
+                                     RETURN_FORMS)
 
 CLEAN_DIRS = ['a', 'b', 'models', 'tex', 'Sub Dir', 'модели', 'sub']
 DAE_NAMES = ['doc.dae', 'scene.DAE', 'Model.Dae', 'x.dAe', 'second.dae', 'OTHER.DAE']
@@ -101,19 +102,21 @@ def gen_layout(rng, idx):
         if nm in used:
             continue
         used.add(nm)
-        aux.append((nm, ['aux', j]))
+        aux.append((nm, ['aux', j, rng.choice(AUX_FORMS)]))
     others = []
     for _ in range(rng.randint(0, 2)):
         nm = '/'.join(rand_dir(rng, rng.randint(0, 1)) + [rng.choice(NON_DAE)])
         if nm not in used:
             used.add(nm)
-            others.append((nm, ['aux', 90 + len(others)]))
+            others.append((nm, ['aux', 90 + len(others), 'normal']))
     dirs = []
     if rng.random() < 0.3:
         nm = rng.choice(['tex/', 'sub/', '__MACOSX/', 'models.dae/'])
         if nm not in used and nm[:-1] not in used:
             used.add(nm)
             dirs.append((nm, ['dir']))
+    # byte-level form of the archive (whatever zipfile.ZipFile opens is an archive)
+    zip_variant = rng.choice(['plain', 'plain', 'prepended', 'prepended-deflated', 'comment', 'deflated', 'mixed', 'zip64'])
     # archive order: decoys in every position relative to the documents
     body = docs + aux + others + dirs
     rng.shuffle(body)
@@ -126,6 +129,8 @@ def gen_layout(rng, idx):
         members = list(body)
         for dcy in decoys:
             members.insert(rng.randint(0, len(members)), dcy)
+    if rng.random() < 0.04:
+        members = []          # a member-less archive (end-of-central-directory record only)
     # image paths, of every form, relative to a document directory, hitting and missing
     images = []
     targets = [a[0] for a in aux] or ['x.png']
@@ -158,8 +163,12 @@ def gen_layout(rng, idx):
     # user loader table over the raw path strings (some answered, some None)
     user_map = {}
     for p in images:
-        if rng.random() < 0.6:
-            user_map[p] = rng.randint(0, 9)
+        if rng.random() < 0.65:
+            form = rng.choice(USER_FORMS)
+            ret = rng.choice(RETURN_FORMS)
+            if ret == 'str' and form == 'large':
+                ret = 'bytes'
+            user_map[p] = [rng.randint(0, 9), form, ret]
     # disk: the same tree (documents, auxiliary and other files) + the archive
     # the archive's name on disk is independent of its content: archive names, document names, others
     zrel = rng.choice(['arch.zip', 'arch.zae', 'pk/arch.zip', 'a/b/arch.ZIP', 'arch.kmz', 'archive', 'pk/arch.xml',
@@ -208,11 +217,8 @@ def gen_layout(rng, idx):
                     continue
                 add(src, n, rng.choice([None, None, n, 'zz.dae']), loader, ignore=rng.random() < 0.3)
     return {'members': [list(m) for m in members], 'disk': [list(d) for d in disk], 'images': images,
-            'user_map': user_map, 'loads': loads, 'ambiguous_selection': ambiguous, 'zip': zrel}
-
-
-def kind_id(kind):
-    return {'doc': DOC_BASE, 'aux': AUX_BASE, 'decoy': DECOY_BASE, 'dir': 0, 'zip': ZIP_BASE}[kind[0]] + (kind[1] if len(kind) > 1 else 0)
+            'user_map': user_map, 'loads': loads, 'ambiguous_selection': ambiguous, 'zip': zrel,
+            'zip_variant': zip_variant}
 
 
 # ------------------------------------------------------------------ encoding
@@ -235,7 +241,7 @@ def c_case(case, res):
         zf = None if ld['zip_filename'] is None else I.name(ld['zip_filename'])
         user = None
         if ld['loader']:
-            user = clist([ctuple(I.name(p), copt(None if j is None else cN(USER_BASE + j)))
+            user = clist([ctuple(I.name(p), copt(None if j is None else cN(content_id(user_content(j)))))
                           for p, j in sorted(case['user_map'].items())])
         seen = ctuple(cnat(ob['code']), cN(ob['data']), copt(None if ob['member'] is None else I.name(ob['member'])),
                       clist([ctuple(cnat(c), cN(d)) for c, d in ob['imgs']]))
@@ -408,7 +414,7 @@ def run(ctx):
     # distribution
     dist = {'loads': 0, 'by_source': {}, 'with_user_loader': 0, 'with_zip_filename': 0, 'ignore': 0,
             'load_outcomes': {}, 'image_outcomes': {}, 'decoy_first': 0, 'only_decoys': 0, 'no_dae': 0,
-            'several_docs': 0, 'uppercase_ext_selected': 0, 'archive_file_names': {}, 'plain_documents_under_other_names': 0, 'depth_of_selected': {}, 'image_path_forms': {}}
+            'several_docs': 0, 'zip_variants': {}, 'memberless_archives': 0, 'aux_forms': {}, 'user_answers': {}, 'uppercase_ext_selected': 0, 'archive_file_names': {}, 'plain_documents_under_other_names': 0, 'depth_of_selected': {}, 'image_path_forms': {}}
     seen_h = set()
     for c, r in zip(cases, results):
         seen_h.add(core.canon_hash([c['members'], c['images'], c['loads']]))
@@ -420,6 +426,14 @@ def run(ctx):
             dist['only_decoys'] += 1
         if not dae:
             dist['no_dae'] += 1
+        dist['zip_variants'][c.get('zip_variant')] = dist['zip_variants'].get(c.get('zip_variant'), 0) + 1
+        dist['memberless_archives'] += not c['members']
+        for m in c['members']:
+            if m[1][0] == 'aux':
+                dist['aux_forms'][m[1][2]] = dist['aux_forms'].get(m[1][2], 0) + 1
+        for a in c['user_map'].values():
+            k = a[1] + ':' + a[2]
+            dist['user_answers'][k] = dist['user_answers'].get(k, 0) + 1
         ext = os.path.splitext(c['zip'])[1] or '(none)'
         dist['archive_file_names'][ext] = dist['archive_file_names'].get(ext, 0) + 1
         dist['plain_documents_under_other_names'] += sum(1 for d in c['disk'] if d[1][0] == 'doc' and d[0].split('/')[-1].startswith('plain'))
